@@ -171,7 +171,10 @@ var scenarios = map[string]*scenario{
 		},
 		target: func(d string) string { return filepath.Join(d, wltA) }},
 	"create-collection": {method: "loadWallet",
-		setup: func(d string, r *Rng) { setupWallets(d, r, wallet.WalletTypeDeterministic, 1); must(os.Rename(filepath.Join(d, wltA), filepath.Join(d, "z.wlt"))) },
+		setup: func(d string, r *Rng) {
+			setupWallets(d, r, wallet.WalletTypeDeterministic, 1)
+			must(os.Rename(filepath.Join(d, wltA), filepath.Join(d, "z.wlt")))
+		},
 		act: func(d string, r *Rng) error {
 			_, err := openSvc(d).CreateWallet(wltA, wallet.Options{Type: wallet.WalletTypeCollection, Label: "coll"})
 			return err
@@ -505,19 +508,36 @@ func doReset(name, method string, seed uint64) string {
 	work := filepath.Join(root, "work")
 	copyDir(work, base)
 	ops := run(work)
+	newDir := work
 	if leftover {
-		// a previous crash left a torn temporary file with the very name this save will use
+		// an earlier attempt at this very save crashed inside its data write and left the temporary file behind (its
+		// name is a function of the target and the content, so the retry uses the same name): either a real torn
+		// prefix of the data, or unrelated bytes.  The clean run above defines what the retry has to achieve.
 		var tmp string
+		var data []byte
 		for _, o := range ops {
-			if strings.Contains(filepath.Base(o.p), ".tmp.") {
+			if tmp == "" && strings.Contains(filepath.Base(o.p), ".tmp.") {
 				tmp = filepath.Base(o.p)
-				break
+			}
+			if o.kind == "write" && len(o.data) > len(data) {
+				data = o.data
 			}
 		}
 		if tmp == "" {
 			panic("harness: no temporary file in the trace")
 		}
-		must(ioutil.WriteFile(filepath.Join(base, tmp), []byte("{\"torn\": tr"), 0600))
+		torn := []byte("{\"torn\": tr")
+		if len(data) > 0 {
+			switch seed % 4 {
+			case 0:
+				torn = data[:0]
+			case 1:
+				torn = data[:len(data)-1]
+			case 2:
+				torn = data[:int(seed/4)%len(data)]
+			}
+		}
+		must(ioutil.WriteFile(filepath.Join(base, tmp), torn, 0600))
 		work = filepath.Join(root, "work2")
 		copyDir(work, base)
 		ops = run(work)
@@ -530,7 +550,7 @@ func doReset(name, method string, seed uint64) string {
 	}
 	c.oldDump, err = c.dump(mkcopy(root, "old", base))
 	must(err)
-	c.newDump, err = c.dump(mkcopy(root, "new", work))
+	c.newDump, err = c.dump(mkcopy(root, "new", newDir))
 	must(err)
 	if c.oldDump == c.newDump {
 		panic("harness: the save did not change what the loader sees")
@@ -603,6 +623,9 @@ func (c *caseState) crashDir(k, t int) string {
 			must(os.Remove(loc(o.p)))
 		case "fsync", "openw":
 		default:
+			if strings.HasPrefix(o.kind, "failed-") {
+				return // the call failed: nothing happened
+			}
 			panic("harness: cannot replay traced operation " + o.kind)
 		}
 	}
